@@ -21,8 +21,7 @@ Record cfg := mkCfg { c_types : list Z; c_on4 : bool; c_on6 : bool; c_cap : Z; c
    marked for disposal *)
 Definition over_cap (cap : Z) (s : iset) : iset :=
   if cap <? len s then
-    map (fun p => if in_use (snd p) then p else
-                  (fst p, if e_prim (snd p) then snd p else mkEnt 0 Deleting false)) s
+    map (fun p => (fst p, if in_use (snd p) then snd p else if e_prim (snd p) then snd p else mkEnt 0 Deleting false)) s
   else s.
 Definition load_slot (ty : Z) (on4 on6 : bool) (cap batch now : Z) (eni : Z) (trunk : bool) (prim : Z)
            (v4 v6 : list Z) (owners : list (Z * Z * Z)) : slot :=
@@ -355,6 +354,9 @@ Definition dec_case (l : list Z) : option (cfg * list Z * list (list Z)) :=
 
 (* the interfaces at start-up: the preload records (12 i 0 ...) of the first block describe the
    attached interfaces the daemon finds *)
+Fixpoint first_block (rs : list (list Z)) : list (list Z) :=
+  match rs with [] => [] | (99 :: _) :: _ => [] | r :: t => r :: first_block t end.
+
 Definition preload_of (rs : list (list Z)) (i : Z) : option (Z * bool * Z * list Z * list Z) :=
   match filter (fun r => match r with 12 :: j :: 0 :: _ => j =? i | _ => false end) rs with
   | (12 :: _ :: _ :: _ :: _ :: _ :: eni :: trunk :: prim :: ips) :: _ =>
@@ -378,7 +380,7 @@ Fixpoint replay_from (c : cfg) (w : world) (rs : list (list Z)) : world :=
   | r :: rest => replay_from c (rec_step c rest w r) rest
   end.
 Definition replay (c : cfg) (rs : list (list Z)) : world :=
-  replay_from c (mkW (init_slots c rs 1 (c_types c)) true 0 [] [] []) rs.
+  replay_from c (mkW (init_slots c (first_block rs) 1 (c_types c)) true 0 [] [] []) rs.
 
 Definition run_pool (i : list Z) : list Z :=
   match dec_case i with
